@@ -21,7 +21,19 @@ Inductive echo_obs :=
   (* small payloads: the pieces sent and the bytes received, compared here *)
 | EchoBytes (pieces : list str) (received : str) (eof : bool)
   (* large payloads: lengths and the first differing offset, compared by the harness *)
-| EchoSummary (sent recv : N) (mismatch : option N) (eof : bool).
+| EchoSummary (sent recv : N) (mismatch : option N) (eof : bool)
+  (* a handshake that carried a large request body: [leaked] = bytes received
+     in excess of the payload, [leak_ok] = those leading bytes are the last
+     [leaked] bytes of the body as it went on the wire, [mismatch] = first
+     offset at which what follows them differs from the payload (compared by
+     the harness) *)
+| EchoLeak (sent recv leaked : N) (leak_ok : bool) (mismatch : option N) (eof : bool).
+
+(* the request body of a handshake, as it went on the wire (chunk framing
+   included): byte for byte when small, else its length *)
+Inductive body_desc := BodyBytes (w : str) | BodyAbstract (len : N).
+Definition body_len (b : body_desc) : N :=
+  match b with BodyBytes w => N.of_nat (length w) | BodyAbstract n => n end.
 
 Inductive hs_obs :=
   (* 101: every response header (lower-cased name, value), the echo, how far
@@ -43,6 +55,9 @@ Inductive h2_res :=
 Inductive c20case :=
   (* header lines as sent (name, raw value between the colon and CRLF) *)
 | CHandshake (wire : list (str * str)) (obs : hs_obs)
+  (* the same with a request body: [framing] are the field lines sent after
+     [wire] (Content-Length / Transfer-Encoding / Trailer / Expect) *)
+| CHandshakeB (wire framing : list (str * str)) (body : body_desc) (obs : hs_obs)
   (* over a whole run: number of 101 answers, total handler entries *)
 | CTotals (n101 entered : N)
   (* one HTTP/2 connection: the requests to the channel endpoint, one stream
@@ -84,11 +99,37 @@ Definition too_many_fields (w : list (str * str)) : bool :=
    defined in Websocket.v; WebsocketProofs.v proves what they mean and that the
    model meets them. *)
 
-Definition echo_ok (e : echo_obs) : bool :=
-  match e with
-  | EchoBytes pieces received eof => str_eqb received (client_receives pieces) && eof
-  | EchoSummary sent recv mismatch eof =>
-      (sent =? recv) && match mismatch with None => true | Some _ => false end && eof
+Definition none_N (o : option N) : bool := match o with None => true | Some _ => false end.
+
+(* What must come back through the pipe.
+
+   Without a request body: exactly the payload, then a clean end of stream.
+
+   With a request body (measured on the unchanged tree, and hyper's doing:
+   dropshot does not read the body of a channel request, and hyper upgrades
+   the connection after consuming however much of the unread body one
+   decoding step gave it - all of a small body that arrived in one piece,
+   the first chunk of a chunked one, the first buffer-full of a 64 KiB one):
+   the bytes of the body that hyper did not consume reach the channel handler
+   ahead of the payload.  So the client must get back some SUFFIX of the body
+   as it went on the wire (possibly empty) followed by exactly the payload:
+   every byte written after the point where hyper stopped reading the request
+   flows unmodified and in order. *)
+Definition echo_ok (body : option body_desc) (e : echo_obs) : bool :=
+  match body, e with
+  | None, EchoBytes pieces received eof => str_eqb received (client_receives pieces) && eof
+  | None, EchoSummary sent recv mismatch eof => (sent =? recv) && none_N mismatch && eof
+  | None, EchoLeak _ _ _ _ _ _ => false
+  | Some (BodyBytes bw), EchoBytes pieces received eof =>
+      let lp := length (client_receives pieces) in
+      let lr := length received in
+      let leaked := (lr - lp)%nat in
+      eof && (lp <=? lr)%nat && (leaked <=? length bw)%nat
+      && str_eqb received (client_receives (skipn (length bw - leaked) bw :: pieces))
+  | Some (BodyAbstract _), EchoBytes _ _ _ => false
+  | Some _, EchoSummary sent recv mismatch eof => (sent =? recv) && none_N mismatch && eof
+  | Some b, EchoLeak sent recv leaked leak_ok mismatch eof =>
+      eof && leak_ok && (recv =? sent + leaked) && none_N mismatch && (leaked <=? body_len b)
   end.
 
 (* 101 Switching Protocols whose Sec-WebSocket-Accept is the given value.
@@ -102,10 +143,10 @@ Definition refused_ok (code followup entered : N) : bool :=
   && ((followup =? 0) || (followup =? 1) || (followup =? 4))   (* not upgraded *)
   && (entered =? 0).                                            (* handler not invoked *)
 
-Definition spec (c : cls) (accept : str) (obs : hs_obs) : bool :=
+Definition spec (c : cls) (accept : str) (body : option body_desc) (obs : hs_obs) : bool :=
   match c, obs with
   | MustAccept _, O101 hdrs echo entered =>
-      is_upgrade_101 hdrs accept && echo_ok echo && (entered =? 1)
+      is_upgrade_101 hdrs accept && echo_ok body echo && (entered =? 1)
   | MustAccept _, _ => false
   | MustReject, OStatus code followup entered => refused_ok code followup entered
   | MustReject, _ => false
@@ -114,15 +155,28 @@ Definition spec (c : cls) (accept : str) (obs : hs_obs) : bool :=
 
 (* ---------- agreement with the model ---------- *)
 
-Definition model_agrees (m : outcome) (obs : hs_obs) : bool :=
+(* some of the request body came through the pipe *)
+Definition body_left_over (e : echo_obs) : bool :=
+  match e with
+  | EchoBytes pieces received _ => (length (client_receives pieces) <? length received)%nat
+  | EchoSummary _ _ _ _ => false
+  | EchoLeak _ _ leaked _ _ _ => 0 <? leaked
+  end.
+
+Definition model_agrees (m : outcome) (body : option body_desc) (obs : hs_obs) : bool :=
   match obs with
   | O101 hdrs echo entered =>
       (status (resp m) =? 101)
-      && list_eqb (fun a b => str_eqb (fst a) (fst b) && str_eqb (snd a) (snd b))
-           (filter (fun h => mem_str (fst h) [n_connection; n_upgrade; n_accept]) hdrs
-            (* in the order [handle] adds them *))
-           (resp_headers (resp m))
-      && echo_ok echo
+      && (let got := filter (fun h => mem_str (fst h) [n_connection; n_upgrade; n_accept]) hdrs in
+          let same := list_eqb (fun a b => str_eqb (fst a) (fst b) && str_eqb (snd a) (snd b)) in
+          (* in the order [handle] adds them *)
+          same got (resp_headers (resp m))
+          (* hyper contract: when it stops reading a request body before its
+             end (the rest then flows through the pipe) it also disables
+             keep-alive, which rewrites the Connection field as a request
+             asking to close does *)
+          || (body_left_over echo && same got (set_connection_close (resp_headers (resp m)))))
+      && echo_ok body echo
       && (entered =? (if handler_invoked m then 1 else 0))
   | OStatus code followup entered =>
       (status (resp m) =? code) && negb (upgraded m)
@@ -173,26 +227,45 @@ Fixpoint h2_verdicts (reqs : list (list (str * str) * N)) (res : list h2_res) : 
   | _, _ => [V_MALFORMED]
   end.
 
+(* the field lines a body adds: "content-length" "transfer-encoding" "trailer" "expect" *)
+Definition framing_names : list str :=
+  [ [99;111;110;116;101;110;116;45;108;101;110;103;116;104];
+    [116;114;97;110;115;102;101;114;45;101;110;99;111;100;105;110;103];
+    [116;114;97;105;108;101;114]; [101;120;112;101;99;116] ].
+Definition framing_ok (f : list (str * str)) : bool :=
+  negb (is_nil f) &&
+  forallb (fun l => mem_str (str_lower (fst l)) framing_names && forallb value_byte_ok (snd l)) f.
+
+(* one HTTP/1.1 handshake: [wire] the lines of the case, [framing] the lines
+   a body adds (none without a body) *)
+Definition handshake_verdict (wire framing : list (str * str)) (body : option body_desc)
+           (obs : hs_obs) : N :=
+  if too_many_fields (wire ++ framing) then
+    (* outside what hyper lets through: the property is silent, the
+       contract above is the expectation *)
+    match obs with
+    | OStatus 431 followup 0 =>
+        if (followup =? 1) || (followup =? 4) then V_AGREE else V_DIVERGE
+    | _ => V_DIVERGE
+    end
+  else
+  let hs := map deliver (wire ++ framing) in
+  let cl := classify hs in
+  (* the digest the property demands: of the key the request carries *)
+  let accept := match cl with MustAccept k => accept_key k | _ => [] end in
+  if negb (spec cl accept body obs) then V_VIOLATION
+  else if model_agrees (served hs) body obs then V_AGREE
+  else V_DIVERGE.
+
 Definition judge (c : c20case) : N :=
   match c with
   | CHandshake wire obs =>
-      if negb (wire_ok wire) then V_MALFORMED else
-      if too_many_fields wire then
-        (* outside what hyper lets through: the property is silent, the
-           contract above is the expectation *)
-        match obs with
-        | OStatus 431 followup 0 =>
-            if (followup =? 1) || (followup =? 4) then V_AGREE else V_DIVERGE
-        | _ => V_DIVERGE
-        end
-      else
-      let hs := map deliver wire in
-      let cl := classify hs in
-      (* the digest the property demands: of the key the request carries *)
-      let accept := match cl with MustAccept k => accept_key k | _ => [] end in
-      if negb (spec cl accept obs) then V_VIOLATION
-      else if model_agrees (served hs) obs then V_AGREE
-      else V_DIVERGE
+      if negb (wire_ok wire) then V_MALFORMED else handshake_verdict wire [] None obs
+  | CHandshakeB wire framing body obs =>
+      (* a request body changes nothing in what the property demands: the
+         four elements decide; only the pipe's expectation knows about it *)
+      if negb (wire_ok wire && framing_ok framing) then V_MALFORMED
+      else handshake_verdict wire framing (Some body) obs
   | CH2 reqs res usable entered =>
       let vs := h2_verdicts reqs res in
       if is_nil reqs || existsb (N.eqb V_MALFORMED) vs then V_MALFORMED
